@@ -235,7 +235,8 @@ def dispatch(c):
         arrs = {kk: np.asarray(v, dtype=float) for kk, v in c["inputs"].items()}
         try:
             df, outputs, _ = oracle.run_model(c["model"], c["T"], c["dt"], c.get("dts"), c["solver"], False, backend=c["backend"], inputs=arrs,
-                                              **({"method": "RK45", "rtol": 1e-9, "atol": 1e-11} if c["solver"] == "scipy" else {}))
+                                              **({"method": "RK45", "rtol": 1e-9, "atol": 1e-11} if c["solver"] == "scipy" else
+                                                 {"rtol": 1e-9, "atol": 1e-11} if c["solver"] == "diffrax" else {}))
         except Exception as exn:
             return dict(status="violated", fails=[dict(clause="run with inputs on this backend", observed=f"{type(exn).__name__}: {exn}")])
         per_var = {}
